@@ -238,8 +238,13 @@ def fails(lines):
     return d[0] if d else None
 
 
-def shrink(lines, max_rounds=200):
-    """Delta-debug a failing history: drop lines (never the ones that create maps still used)."""
+def shrink(lines, max_rounds=200, budget_s=None):
+    """Delta-debug a failing history: drop lines (never the ones that create maps still used).
+    Bounded in rounds and in wall time (a failing input may be a hang that costs seconds per try)."""
+    import time
+    if budget_s is None:
+        budget_s = float(os.environ.get('VERIF_SHRINK_S', '90'))
+    t_end = time.time() + budget_s
     cur = list(lines)
     d = fails(cur)
     if d is None:
@@ -247,10 +252,10 @@ def shrink(lines, max_rounds=200):
     cur = cur[:d.step + 1]
     rounds = 0
     changed = True
-    while changed and rounds < max_rounds:
+    while changed and rounds < max_rounds and time.time() < t_end:
         changed = False
         i = len(cur) - 2
-        while i >= 0 and rounds < max_rounds:
+        while i >= 0 and rounds < max_rounds and time.time() < t_end:
             cand = cur[:i] + cur[i + 1:]
             rounds += 1
             dd = fails(cand)
@@ -275,7 +280,7 @@ def shrink(lines, max_rounds=200):
                 if vals is not None and len(vals) != len(pix):
                     continue
                 k = 0
-                while k < len(pix) and len(pix) > 1 and rounds < max_rounds * 3:
+                while k < len(pix) and len(pix) > 1 and rounds < max_rounds * 3 and time.time() < t_end:
                     npix = pix[:k] + pix[k + 1:]
                     ntoks = list(toks)
                     ntoks[j] = 'pix=' + ','.join(npix)
